@@ -421,7 +421,7 @@ func Plan(tier string) *harness.Plan {
 
 func budget(tier string) time.Duration {
 	if tier == "thorough" {
-		return 40 * time.Minute
+		return 25 * time.Minute
 	}
 	return 150 * time.Second
 }
